@@ -1074,6 +1074,23 @@ func getUsedVariablesInExpr(expr ast.Expr, used map[string]bool) {
 		for _, arg := range e.Args {
 			getUsedVariablesInExpr(arg, used)
 		}
+	// Value-form nodes (what the parser produces) read variables too
+	case ast.VariableExpr:
+		used[e.Name] = true
+	case ast.BinaryOpExpr:
+		getUsedVariablesInExpr(&e, used)
+	case ast.ObjectExpr:
+		getUsedVariablesInExpr(&e, used)
+	case ast.ArrayExpr:
+		getUsedVariablesInExpr(&e, used)
+	case ast.FieldAccessExpr:
+		getUsedVariablesInExpr(&e, used)
+	case ast.UnaryOpExpr:
+		getUsedVariablesInExpr(&e, used)
+	case ast.ArrayIndexExpr:
+		getUsedVariablesInExpr(&e, used)
+	case ast.FunctionCallExpr:
+		getUsedVariablesInExpr(&e, used)
 	}
 }
 
